@@ -161,14 +161,14 @@ def _clean(name):
 def _squash_verdict(case, fi, wf):
     """the squashed on-disk unpacking (unpack.UnpackSquashed of the same image) holds the regular files of the final view,
     with the same content — judged where H holds for the final view and the image has no links (the unpacker writes
-    through links and drops dangling ones; C06/C17 territory)"""
+    through links and drops dangling ones; C06/C17 territory) and no fifo"""
     sq = fi.get('squash')
     if sq in (None, 'na', 'err') or not wf or wf[-1] != '1':
         return None, None
     t = case.split(' ')
     layers = [[e.split(':') for e in (l.split(';') if l not in ('-', '') else [])] for l in t[5].split('|')]
-    if any(e[0] in 'sh' for l in layers for e in l):
-        return None, None
+    if any(e[0] in 'sho' for l in layers for e in l):
+        return None, None              # links, and entry types outside the property's quantifier (mutate.Extract treats a fifo as a file)
     last = fi['walk'].split('|')[-1]
     view = sorted(x.split(':')[0] + ':' + x.split(':')[-1] for x in _items(last) if x.split(':')[1] == 'f')
     got = _items(sq)
@@ -186,6 +186,7 @@ def _squash_verdict(case, fi, wf):
         for typ, n in l:
             c = _clean(n)
             if c is None:
+                odd = True             # "", ".", "..", "../x": skipped by the loader, "." is a tombstone of everything for mutate.Extract
                 continue
             base = c[-1]
             if base.startswith('.wh.'):
